@@ -243,7 +243,7 @@ impl<const N: u32> From<&Q32E2> for PxE2<{ N }> {
             frac64_a &= 0x_7FFF_FFFF_FFFF_FFFF;
 
             let shift = reg_a + 35; //2 es bit, 1 sign bit and 1 r terminating bit , 31+4
-            let mut frac_a = (frac64_a >> shift) as u32;
+            let mut frac_a = u64_zero_shr(frac64_a, shift) as u32;
 
             //regime length is smaller than length of posit
             let mut bit_n_plus_one = false;
